@@ -232,6 +232,7 @@ pub struct World {
     pub aged: Option<u64>,
     pub same_process_probes: u32,
     pub part_weight: u64,
+    pub fault_weight: u64,
     pub target: Option<String>,
     pub rng: crate::prng::Rng,
     pub rec_cache: Vec<Option<(u64, Rec)>>,
